@@ -613,6 +613,8 @@ def decode_jobs(ir_path, tier, solver_ms):
                     key = (head, k + extra)
                     if key in seen or not head:
                         continue
+                    if not hexbin and k + extra > ktail:
+                        continue  # decimal: at most ktail free characters (7 already leave the solver undecided)
                     seen.add(key)
                     jobs.append((job_decode, (ir_path, ty, head, k + extra, solver_ms)))
     return jobs
